@@ -175,6 +175,7 @@ type Process struct {
 	eventConsumersLock sync.RWMutex
 	eventConsumers     []event.IConsumer
 	subTracer          tracing.ITracer
+	monitorOnce        sync.Once
 }
 
 func (p *Process) Id() id.Id { return p.id }
@@ -602,12 +603,15 @@ func (p *Process) StartWith(ctx context.Context, element schema.FlowNodeInterfac
 	}
 	switch eventNode := flowNode.(type) {
 	case *startEvent:
+		// One cease flow monitor per instance (it waits for all start events
+		// itself), subscribed before the start event is triggered so that it
+		// cannot miss the start event's traces.
+		p.monitorOnce.Do(func() {
+			sender := p.tracer.RegisterSender()
+			go p.ceaseFlowMonitor(p.subTracer)(ctx, sender)
+		})
 		eventNode.Trigger(ctx)
 		verifAt("process.start.triggered")
-
-		// StartAll cease flow monitor
-		sender := p.tracer.RegisterSender()
-		go p.ceaseFlowMonitor(p.subTracer)(ctx, sender)
 		p.tracer.Send(InstantiationTrace{InstanceId: p.id})
 
 	case *throwEvent:
